@@ -18,6 +18,7 @@ ap.add_argument('src'); ap.add_argument('name'); ap.add_argument('prop')
 ap.add_argument('--checks', default=''); ap.add_argument('--tier', default='quick')
 ap.add_argument('--no-baseline', action='store_true'); ap.add_argument('--save', action='store_true')
 ap.add_argument('--needs', default='')
+ap.add_argument('--no-demo', action='store_true', help='the demo predates a later repair of /repo and no longer runs (e.g. it parks a thread that now holds a lock)')
 a = ap.parse_args()
 checks = [c for c in (a.checks or a.prop).split(',') if c]
 tmp = tempfile.mkdtemp(prefix='pp_seed_', dir='/var/tmp')
@@ -36,14 +37,20 @@ try:
     if imp.returncode:
         print('IMPORT FAILED'); ok = False
     demo = os.path.join(os.path.abspath(a.src), 'demo.py')
+    if a.no_demo:
+        demo = None
+        meta['demo_note'] = 'demo not re-run: written against an earlier /repo HEAD'
     env = dict(os.environ, PYTHONDONTWRITEBYTECODE='1')
-    d1 = subprocess.run(['/venv/bin/python', demo, mut], cwd=tmp, env=env, stdout=subprocess.PIPE, stderr=subprocess.STDOUT, text=True, timeout=600)
-    d0 = subprocess.run(['/venv/bin/python', demo, clean], cwd=tmp, env=env, stdout=subprocess.PIPE, stderr=subprocess.STDOUT, text=True, timeout=600)
-    meta['demo_exit_with_change'], meta['demo_exit_without_change'] = d1.returncode, d0.returncode
-    meta['demo_output_with_change'] = d1.stdout[-600:]
-    meta['ran'].append('python demo.py <patched copy>: exit %d; python demo.py <unpatched copy>: exit %d' % (d1.returncode, d0.returncode))
-    print('demo: with change exit=%d, without exit=%d' % (d1.returncode, d0.returncode))
-    if d1.returncode != 1 or d0.returncode != 0:
+    d1 = d0 = None
+    if demo:
+      d1 = subprocess.run(['/venv/bin/python', demo, mut], cwd=tmp, env=env, stdout=subprocess.PIPE, stderr=subprocess.STDOUT, text=True, timeout=600)
+      d0 = subprocess.run(['/venv/bin/python', demo, clean], cwd=tmp, env=env, stdout=subprocess.PIPE, stderr=subprocess.STDOUT, text=True, timeout=600)
+    if demo:
+      meta['demo_exit_with_change'], meta['demo_exit_without_change'] = d1.returncode, d0.returncode
+      meta['demo_output_with_change'] = d1.stdout[-600:]
+      meta['ran'].append('python demo.py <patched copy>: exit %d; python demo.py <unpatched copy>: exit %d' % (d1.returncode, d0.returncode))
+      print('demo: with change exit=%d, without exit=%d' % (d1.returncode, d0.returncode))
+      if d1.returncode != 1 or d0.returncode != 0:
         ok = False
         print(d1.stdout[-400:]); print(d0.stdout[-400:])
     if not a.no_baseline:
